@@ -111,7 +111,20 @@ func (fs *FS) OpenReader(dir string, name string) (types.ReadableFile, error) {
 // about the well-formedness of the file, it may be empty, the wrong size or
 // corrupt in arbitrary ways.
 func (fs *FS) OpenWriter(dir string, name string) (types.WritableFile, error) {
-	return os.OpenFile(filepath.Join(dir, name), os.O_RDWR, os.FileMode(0644))
+	f, err := os.OpenFile(filepath.Join(dir, name), os.O_RDWR, os.FileMode(0644))
+	if err != nil {
+		return nil, err
+	}
+	// The file may have been created by an earlier process that never reached
+	// its first Sync (e.g. Open creates the tail and the WAL is closed again
+	// without an append), in which case the parent dir was never fsynced. Wrap
+	// it like Create does so the first Sync also fsyncs the parent dir.
+	fi := &File{
+		new:  0,
+		dir:  dir,
+		File: *f,
+	}
+	return fi, nil
 }
 
 func syncDir(dir string) error {
